@@ -15,6 +15,7 @@ import (
 	"sort"
 	"strings"
 	"testing"
+	"verifharness/vread"
 
 	goose "github.com/goose-lang/goose"
 	"pgregory.net/rapid"
@@ -149,6 +150,12 @@ func runCase(c Case) verdict {
 		}
 		hit[found] = true
 	}
+	// accounting: every top-level declaration is either reported (an error inside it) or emitted
+	// (a definition with its name) — independent of whether the rest can be re-translated
+	// without the rejected ones (seeded change C07-5: an error suppressed as a "follow-on")
+	if msg := unaccounted(tr, spans, hit); msg != "" {
+		return verdict{msg: msg}
+	}
 	if len(hit) == 0 {
 		return v
 	}
@@ -188,6 +195,64 @@ func runCase(c Case) verdict {
 		return verdict{msg: fmt.Sprintf("the declarations emitted next to %d rejected ones differ from the ones emitted without them:\n--- with ---\n%s\n--- without ---\n%s", len(hit), strings.Join(tr.Decls, "\n\n"), strings.Join(tr2.Decls, "\n\n"))}
 	}
 	return v
+}
+
+// unaccounted returns a message if some top-level declaration has neither an error inside it nor a
+// definition of its name in the output.
+func unaccounted(tr *tv.Translation, spans []declSpan, hit map[int]bool) string {
+	vf, err := vread.ParseFile(tr.Text)
+	if err != nil {
+		return "" // well-formedness is C05's business
+	}
+	emitted := map[string]bool{}
+	for _, d := range vf.Defs() {
+		emitted[d.Name] = true
+	}
+	si := -1
+	for _, f := range tr.Files {
+		for _, d := range f.Decls {
+			si++
+			if hit[si] {
+				continue
+			}
+			var names []string
+			switch d := d.(type) {
+			case *ast.FuncDecl:
+				n := d.Name.Name
+				if d.Recv != nil && len(d.Recv.List) == 1 {
+					t := d.Recv.List[0].Type
+					if st, ok := t.(*ast.StarExpr); ok {
+						t = st.X
+					}
+					if ix, ok := t.(*ast.IndexExpr); ok {
+						t = ix.X
+					}
+					if id, ok := t.(*ast.Ident); ok {
+						n = id.Name + "__" + n
+					}
+				}
+				names = append(names, n)
+			case *ast.GenDecl:
+				for _, sp := range d.Specs {
+					switch sp := sp.(type) {
+					case *ast.TypeSpec:
+						names = append(names, sp.Name.Name)
+					case *ast.ValueSpec:
+						for _, id := range sp.Names {
+							names = append(names, id.Name)
+						}
+					}
+				}
+			}
+			for _, n := range names {
+				if n == "_" || n == "init" || emitted[n] {
+					continue
+				}
+				return fmt.Sprintf("declaration %s is neither emitted nor reported: no definition of that name in the output and no error inside the declaration (%d errors reported for other declarations)", n, len(hit))
+			}
+		}
+	}
+	return ""
 }
 
 func shortSite(s string) string {
